@@ -59,7 +59,8 @@ Record tg_case := mk_tg {
   tg_paths : list (obs tokens);
   tg_syn_ok : bool;                       (* syn::parse2::<syn::File> accepted the observed module *)
   tg_upcasts : list (N * option N * obs tokens);   (* (type id, variant position, standalone struct tokens) *)
-  tg_expect : option (string * list N) }. (* outcome the fault injector expects (kind, payload) *)
+  tg_expect : option (string * list N);  (* outcome the fault injector expects (kind, payload) *)
+  tg_dedup : obs (list (list string)) }.   (* entry paths after ensure_unique_type_paths *)
 
 (** two runs related by [tp_kind]: "same" (equal inputs / permuted histories /
     renumbered registry: outputs must be token-identical), or a switch name *)
@@ -83,6 +84,11 @@ Definition corr_paths (c : tg_case) : bool :=
   let s := settings_of (tg_spec c) in
   list_eqb (obs_eqb tokens_eqb) (map (fun i => obs_of (model_path (tg_reg c) s i)) (ids_of (tg_reg c)))
            (tg_paths c).
+
+(** [ensure_unique_type_paths] on the same registry *)
+Definition reg_paths (r : registry) : list (list string) := map (fun e => t_path (snd e)) r.
+Definition corr_dedup_obs (c : tg_case) : bool :=
+  obs_eqb (list_eqb path_eqb) (obs_of (rmap reg_paths (ensure_unique (tg_reg c)))) (tg_dedup c).
 
 (** standalone struct from the field list of a struct ([None]) or of the k-th variant *)
 Definition upcast_fields (r : registry) (id : N) (vi : option N) : option (string * list field * list string) :=
